@@ -1004,7 +1004,7 @@ pseudo_tcp_socket_notify_clock(PseudoTcpSocket *self)
       // Back off retransmit timer.  Note: the limit is lower when connecting.
       rto_limit = (priv->state < PSEUDO_TCP_ESTABLISHED) ? DEF_RTO : MAX_RTO;
       priv->rx_rto = min(rto_limit, priv->rx_rto * 2);
-      priv->rto_base = now;
+      priv->rto_base = now ? now : 1;
 
       priv->recover = priv->snd_nxt;
       if (priv->dup_acks >= 3) {
@@ -1713,7 +1713,7 @@ process(PseudoTcpSocket *self, Segment *seg)
     nAcked = seg->ack - priv->snd_una;
     priv->snd_una = seg->ack;
 
-    priv->rto_base = (priv->snd_una == priv->snd_nxt) ? 0 : now;
+    priv->rto_base = (priv->snd_una == priv->snd_nxt) ? 0 : (now ? now : 1);
 
     /* ACKs for FIN segments give an increment on nAcked, but there is no
      * corresponding byte to read because the FIN segment is empty (it just has
@@ -2173,7 +2173,8 @@ transmit(PseudoTcpSocket *self, SSegment *segment, guint32 now)
   segment->xmit += 1;
 
   if (priv->rto_base == 0) {
-    priv->rto_base = now;
+    /* 0 means "not armed" */
+    priv->rto_base = now ? now : 1;
   }
 
   return 0;
@@ -2252,7 +2253,8 @@ attempt_send(PseudoTcpSocket *self, SendFlags sflags)
           priv->t_ack) {
         packet(self, priv->snd_nxt, 0, 0, 0, now);
       } else {
-        priv->t_ack = now;
+        /* 0 means "no delayed ACK pending" */
+        priv->t_ack = now ? now : 1;
       }
       return;
     }
